@@ -51,4 +51,20 @@ theorem elsewhere_nothing_waits_under_a_mutex (n : String) (p : Prog) (hm : (n, 
     variable for all the rounds — the seeded change C06n dispatched `msg` that way) -/
 theorem no_goroutine_shares_a_loop_variable : Gen.Locks.capturedLoopVars = [] := by decide
 
+/-- **The translator, applied to a text of its own** (embedded in harness/cmd/extract/locks.go and translated on every
+    run beside the sources): a deferred unlock, an early return, `continue` and `break` in a loop; a read lock, a `switch`
+    whose `break` ends the switch, a return that unlocks first, a `select` with a default (its send is an attempt), a
+    `select` without (a send, a receive), a message to a peer after the unlock (the send and the receive of the second `select` are under the read lock: `acts` finds them), a goroutine translated apart; a labelled
+    `break` (not followed: `.unknown`); a loop variable shared with a goroutine and one handed over as an argument.
+    The skeletons are what a reader of that text expects, and the checker says of them what it should. -/
+theorem translator_self_test :
+    Gen.Locks.selfTest =
+      [("selftest.go T.a", (.seq (.lock 0) (.seq (.dunlock 0) (.seq (.ite .ret .skip) (.seq (.loop (.seq (.ite .cont .skip) .brk)) .ret))))),
+       ("selftest.go T.b", (.seq (.lock 0) (.seq (.loop (.seq (.catch (.ite .brk (.ite (.seq (.unlock 0) .ret) .skip))) (.seq (.catch (.ite .skip .skip)) (.catch (.ite (.act 0) (.act 1)))))) (.seq (.unlock 0) (.act 2))))),
+       ("selftest.go T.b func#0", (.seq (.lock 0) (.seq (.act 0) (.unlock 0)))),
+       ("selftest.go T.c", (.seq (.lock 0) (.seq (.loop (.loop .unknown)) (.unlock 0))))] ∧
+    Gen.Locks.selfTestCaptured = ["selftest.go T.d m"] ∧
+    (Gen.Locks.selfTest.map (fun f => safe f.2)) = [true, true, true, false] ∧
+    (Gen.Locks.selfTest.map (fun f => (acts f.2 {}).eraseDups)) = [[], [0, 1], [0], []] := by decide
+
 end QiVerif.Tie.Locks
